@@ -22,6 +22,7 @@ import random
 import time
 
 from . import common, tlc
+from .exc import exc_name
 
 W = -9  # Formula.tla's wildcard = None
 
@@ -107,7 +108,7 @@ def _attempt(fn):
     except tlc.MachineryError:
         raise
     except Exception as e:  # noqa
-        return ("exc", type(e).__name__, isinstance(e, ValueError))
+        return ("exc", exc_name(e), isinstance(e, ValueError))
 
 
 def _judge_call(got, res, scalar, want_scalar, want_seq):
